@@ -28,6 +28,10 @@ register(PropertySpec(
              "abstract interpretation of AND._evaluate__ and ElseIf._evaluate__ for every (left false, right false, "
              "yield_when_false): the _is_false_ flag carried by each emitted row is the truth table of the connective, "
              "false rows only when requested, and ElseIf asks its left side for false rows"),
+        Rule("APPLY-ALWAYS", _lazy("extra", "rule_apply_always"), 1,
+             "Comparator.apply_operation returns the operator applied to the operand values on every path"),
+        Rule("LITERAL-WRAP", _lazy("extra", "rule_literal_wrap"), 1,
+             "a literal operand is a one-element domain whatever its value (wrapped on every path of Literal.__init__)"),
         Rule("BIND-THREAD", _lazy("binding", "rule_bind_thread"), 30,
              "(shared with C02) operands are evaluated under the binding already established - a condition that "
              "mentions the variable twice must see the same object on both sides"),
@@ -248,6 +252,10 @@ register(PropertySpec(
              "(own and inherited) is switched off: conclusions are a side effect of evaluating the operands"),
         Rule("EVAL-STATE-RESET", _lazy("history", "rule_eval_state_reset"), 5,
              "(shared with C04) the selectors' per-evaluation state (concluded_before, _conclusion_) is reset with the query"),
+        Rule("EXCEPT-FIRED", _lazy("extra", "rule_except_fired"), 1,
+             "ExceptIf asks the refinement side for true rows only ('produced a row' is taken for 'fired')"),
+        Rule("BIND-NO-CLOBBER", _lazy("extra", "rule_bind_no_clobber"), 8,
+             "(shared with C02) a selector does not modify the binding its operand's stream was started under"),
         Rule("TREE-SURGERY", ruletree.rule_tree_surgery, 2,
              "every function that wraps the current node in a conclusion selector: saves the node's parent, detaches, "
              "attaches the selector under the saved parent and - when that parent is a binary operator - re-points the "
@@ -305,6 +313,10 @@ register(PropertySpec(
         Rule("INSERT-RETRIEVABLE", cacheidx.rule_insert_retrievable, 2,
              "abstract interpretation of insert(index=True) for an empty and a non-empty assignment: the output is stored "
              "in the index, where retrieve() looks, never only in the flat store"),
+        Rule("NONE-TEST", _lazy("extra", "rule_none_tests"), 2,
+             "values read from the index with .get() are tested for presence by identity with None, never by truthiness"),
+        Rule("LEAF-OVERWRITE", _lazy("extra", "rule_leaf_overwrite"), 1,
+             "insert stores the output by assignment: re-inserting a binding overwrites"),
         Rule("RESULT-NO-ALIAS", cacheidx.rule_result_no_alias, 2,
              "in retrieve() a binding extended per cache branch is a fresh copy per branch, and the accumulator starts "
              "from a copy of the lookup"),
@@ -429,6 +441,10 @@ register(PropertySpec(
              "every evaluation call site is classified value/condition by the resolved field of its receiver; at every "
              "value-role site the callee is entered through a value-role entry whose per-class constant switches the "
              "filter off exactly for the filter-owning classes"),
+        Rule("APPLY-ALWAYS", _lazy("extra", "rule_apply_always"), 1,
+             "the comparison / membership operator is applied to the operand values on every path, None included"),
+        Rule("LITERAL-WRAP", _lazy("extra", "rule_literal_wrap"), 1,
+             "a falsy literal (0, '', None, False) is a value: Literal.__init__ wraps the datum on every path"),
     ],
     explanation="An effect property: in which positions may a value's truthiness decide whether a row survives. The "
                 "positions are the evaluation call sites; their role is the resolved dataclass field of the receiver "
@@ -460,6 +476,10 @@ register(PropertySpec(
              "by the right operand's variables"),
         Rule("CACHE-FLAG-CONSISTENT", _lazy("cacheidx", "rule_cache_flag_consistent"), 5,
              "(shared with C05) a cached row is replayed with its own truth flag"),
+        Rule("BIND-NO-CLOBBER", _lazy("extra", "rule_bind_no_clobber"), 8,
+             "while a child's stream is iterated, the binding it was started under is not modified in the loop body"),
+        Rule("ROW-FRESH", _lazy("extra", "rule_row_fresh"), 1,
+             "a row extended and yielded in a loop is created in that same loop (no aliasing between rows)"),
         Rule("PRODUCT", binding.rule_product, 1,
              "the combinator completing unbound selected variables is of class all-combinations (itertools.product / "
              "recursive nested iteration), not lock-step (zip, islice, lone next)"),
@@ -481,6 +501,11 @@ register(PropertySpec(
         Rule("FLATTEN-EACH", aggregates.rule_flatten_each, 3,
              "Flatten._apply_mapping_ yields once per inner element on every path, unconditionally, iterating the inner "
              "value as it is; a non-iterable is wrapped as a singleton"),
+        Rule("FLATTEN-EACH", _lazy("extra", "rule_flatten_paths"), 2,
+             "every value reaches the loop over its elements (no early return), and each element is identified by itself, "
+             "not by its parent"),
+        Rule("ROW-FRESH", _lazy("extra", "rule_row_fresh"), 1,
+             "each element's row is a fresh copy of the parent's binding, created in the per-element loop"),
         Rule("BIND-KEEP", binding.rule_bind_keep, 12,
              "each yielded binding extends the child's binding for that element (DomainMapping._evaluate__), and the "
              "query descriptor keeps everything a selected expression bound (parent correlation when the parent is "
@@ -562,6 +587,14 @@ register(PropertySpec(
         Rule("OPDEN", opden.rule_opden, 8,
              "mirroring a comparison (5 < x reaches x.__gt__(5) and denotes x > 5) and contains(c, i) vs in_(i, c) "
              "have the same denotation"),
+        Rule("CACHE-FLAG-CONSISTENT", _lazy("cacheidx", "rule_cache_flag_consistent"), 5,
+             "(shared with C05) which rows a cache replays as true must not depend on the row order (operand / domain order)"),
+        Rule("VALUE-TRUTH", _lazy("values", "rule_value_truth"), 10,
+             "(shared with C19) which operand is evaluated second must not matter: both are evaluated as values"),
+        Rule("BIND-KEEP", _lazy("binding", "rule_bind_keep"), 12,
+             "(shared with C02) selection order: every selected expression keeps what it bound"),
+        Rule("BIND-THREAD", _lazy("binding", "rule_bind_thread"), 30,
+             "(shared with C02) operand order: each operand is evaluated under what the other bound"),
     ],
     explanation="Two of the six listed rewrites are decided: mirrored comparisons and contains/in_, by the OPDEN "
                 "denotation rule (C01). Commutativity/associativity of and/or, declaration/selection order and domain "
